@@ -2356,3 +2356,195 @@ mutant('C16-clip-before-lookup', 'C16',
          "        for input_gene in self._post_process(gene_id_list):\n"
          "            if self._is_valid(input_gene):\n")],
        'R-PROV/lookup-by-given-name', '')
+
+
+# ----------------------------------------------------------------------
+# rules of rounds 2 and 3
+# ----------------------------------------------------------------------
+mutant('C01-flat-row-table', 'C01',
+       'rows assigned to a node kept in one table keyed by label alone',
+       [(P+'type_assignment/election.py',
+         "        previously_assigned[child_level] = dict()\n", ""),
+        (P+'type_assignment/election.py',
+         "                if parent_node[1] in "
+         "previously_assigned[parent_level]:\n"
+         "                    chosen_idx = previously_assigned[\n"
+         "                        parent_level][parent_node[1]]\n",
+         "                if parent_node[1] in previously_assigned:\n"
+         "                    chosen_idx = previously_assigned["
+         "parent_node[1]]\n"),
+        (P+'type_assignment/election.py',
+         "                previously_assigned[child_level][celltype] = "
+         "assigned_this\n",
+         "                previously_assigned[celltype] = assigned_this\n")],
+       'R-KEY/node-identity', 'run_type_assignment')
+twin('C01-twin-row-table-tuple-key', 'C01',
+     'rows assigned to a node kept under a (level, label) tuple key',
+     [(P+'type_assignment/election.py',
+       "        previously_assigned[child_level] = dict()\n", ""),
+      (P+'type_assignment/election.py',
+       "                if parent_node[1] in "
+       "previously_assigned[parent_level]:\n"
+       "                    chosen_idx = previously_assigned[\n"
+       "                        parent_level][parent_node[1]]\n",
+       "                if (parent_level, parent_node[1]) in "
+       "previously_assigned:\n"
+       "                    chosen_idx = previously_assigned[\n"
+       "                        (parent_level, parent_node[1])]\n"),
+      (P+'type_assignment/election.py',
+       "                previously_assigned[child_level][celltype] = "
+       "assigned_this\n",
+       "                previously_assigned[(child_level, celltype)] = "
+       "assigned_this\n")])
+mutant('C15-name-memo-by-label', 'C15',
+       'readable names memoised under the label alone',
+       [(P+'utils/output_utils.py',
+         "    records = []\n    for cell in results_blob:\n",
+         "    records = []\n    name_lookup = dict()\n"
+         "    for cell in results_blob:\n"),
+        (P+'utils/output_utils.py',
+         "            name = taxonomy_tree.label_to_name(\n"
+         "                        level=level,\n"
+         "                        label=label,\n"
+         "                        name_key='name')\n",
+         "            if label not in name_lookup:\n"
+         "                name_lookup[label] = taxonomy_tree.label_to_name(\n"
+         "                        level=level,\n"
+         "                        label=label,\n"
+         "                        name_key='name')\n"
+         "            name = name_lookup[label]\n")],
+       'R-', 'blob_to_df')
+twin('C15-twin-name-memo-by-level-and-label', 'C15',
+     'readable names memoised under (level, label)',
+     [(P+'utils/output_utils.py',
+       "    records = []\n    for cell in results_blob:\n",
+       "    records = []\n    name_lookup = dict()\n"
+       "    for cell in results_blob:\n"),
+      (P+'utils/output_utils.py',
+       "            name = taxonomy_tree.label_to_name(\n"
+       "                        level=level,\n"
+       "                        label=label,\n"
+       "                        name_key='name')\n",
+       "            if (level, label) not in name_lookup:\n"
+       "                name_lookup[(level, label)] = "
+       "taxonomy_tree.label_to_name(\n"
+       "                        level=level,\n"
+       "                        label=label,\n"
+       "                        name_key='name')\n"
+       "            name = name_lookup[(level, label)]\n")])
+mutant('C17-drop-level-zip-sorted', 'C17',
+       'children of dropped nodes zipped against the sorted parent names',
+       [(P+'taxonomy/taxonomy_tree.py',
+         "        new_parent = dict()\n"
+         "        for node in new_data[parent_level]:\n"
+         "            new_parent[node] = []\n"
+         "            for child in self.children(parent_level, node):\n"
+         "                new_parent[node] += self.children(level_to_drop, "
+         "child)\n",
+         "        parent_nodes = self.nodes_at_level(parent_level)\n"
+         "        parent_nodes.sort()\n"
+         "        grandchildren = []\n"
+         "        for node in new_data[parent_level]:\n"
+         "            these = []\n"
+         "            for child in self.children(parent_level, node):\n"
+         "                these += self.children(level_to_drop, child)\n"
+         "            grandchildren.append(these)\n"
+         "        new_parent = dict(zip(parent_nodes, grandchildren))\n")],
+       'R-ALIGN/zip-lockstep', '_drop_level')
+twin('C17-twin-drop-level-zip-lockstep', 'C17',
+     'children of dropped nodes zipped against names collected in the '
+     'same loop',
+     [(P+'taxonomy/taxonomy_tree.py',
+       "        new_parent = dict()\n"
+       "        for node in new_data[parent_level]:\n"
+       "            new_parent[node] = []\n"
+       "            for child in self.children(parent_level, node):\n"
+       "                new_parent[node] += self.children(level_to_drop, "
+       "child)\n",
+       "        parent_nodes = []\n"
+       "        grandchildren = []\n"
+       "        for node in new_data[parent_level]:\n"
+       "            these = []\n"
+       "            for child in self.children(parent_level, node):\n"
+       "                these += self.children(level_to_drop, child)\n"
+       "            parent_nodes.append(node)\n"
+       "            grandchildren.append(these)\n"
+       "        new_parent = dict(zip(parent_nodes, grandchildren))\n")])
+mutant('C05-row-labels-by-pointer-scatter', 'C05',
+       'dense conversion labels rows by scattering ones at the row starts',
+       [(P+'utils/sparse_utils.py',
+         "    data_idx = 0\n"
+         "    for iptr in range(len(indptr)-1):\n"
+         "        these_cols = indices[indptr[iptr]:indptr[iptr+1]]\n"
+         "        n_cols = len(these_cols)\n"
+         "        result[iptr, these_cols] = data[data_idx:data_idx+n_cols]\n"
+         "        data_idx += n_cols\n",
+         "    row_starts = indptr[1:-1]\n"
+         "    row_idx = np.zeros(len(data), dtype=int)\n"
+         "    row_idx[row_starts[row_starts < len(data)]] += 1\n"
+         "    row_idx = np.cumsum(row_idx)\n"
+         "    result[row_idx, indices] = data\n")],
+       'R-IDIOM/pointer-scatter', '_csr_to_dense')
+twin('C05-twin-row-labels-by-repeat', 'C05',
+     'dense conversion labels rows by repeating row numbers by run length',
+     [(P+'utils/sparse_utils.py',
+       "    data_idx = 0\n"
+       "    for iptr in range(len(indptr)-1):\n"
+       "        these_cols = indices[indptr[iptr]:indptr[iptr+1]]\n"
+       "        n_cols = len(these_cols)\n"
+       "        result[iptr, these_cols] = data[data_idx:data_idx+n_cols]\n"
+       "        data_idx += n_cols\n",
+       "    row_idx = np.repeat(np.arange(len(indptr)-1), np.diff(indptr))\n"
+       "    result[row_idx, indices] = data\n")])
+mutant('C07-cpm-clamped-divisor', 'C07',
+       'CPM divisor clamped from below instead of replacing zero totals',
+       [(P+'cell_by_gene/utils.py',
+         "    denom = np.where(row_sums > 0.0, row_sums, 1.)\n",
+         "    denom = np.maximum(row_sums, 1.)\n")],
+       'R-IDIOM/cpm-denominator', 'convert_to_cpm')
+twin('C07-twin-cpm-masked-store', 'C07',
+     'CPM divisor built by a masked store on the zero totals',
+     [(P+'cell_by_gene/utils.py',
+       "    denom = np.where(row_sums > 0.0, row_sums, 1.)\n",
+       "    denom = np.copy(row_sums)\n"
+       "    denom[denom == 0.0] = 1.\n")])
+mutant('C02-correlation-inherited-on-falsy', 'C02',
+       'average correlation inherited whenever it is falsy',
+       [(P+'type_assignment/election.py',
+         "            if cell[child_level]['avg_correlation'] is None:\n",
+         "            if not cell[child_level]['avg_correlation']:\n")],
+       'R-GUARD/correlation-backfill', 'run_type_assignment')
+mutant('C09-cell-names-read-once', 'C09',
+       'statistics worker reads the cell names of the first file only',
+       [(P+'diff_exp/precompute_from_anndata.py',
+         "        if iterator is None or iterator_path != chunk_spec[0]:\n\n"
+         "            cell_name_list = list(\n"
+         "                read_df_from_h5ad(chunk_spec[0], "
+         "'obs').index.values)\n",
+         "        if iterator is None:\n"
+         "            cell_name_list = list(\n"
+         "                read_df_from_h5ad(chunk_spec[0], "
+         "'obs').index.values)\n"
+         "        if iterator is None or iterator_path != chunk_spec[0]:\n")],
+       'R-SAMEVAL/per-file-state', '_process_chunk_spec')
+mutant('C04-files-in-set-order', 'C04',
+       'reference files de-duplicated through a set',
+       [(P+'diff_exp/precompute_from_anndata.py',
+         "    gene_names = None\n    for pth in data_path_list:\n",
+         "    data_path_list = list(set(data_path_list))\n"
+         "    gene_names = None\n    for pth in data_path_list:\n")],
+       'R-TAINT/order-to-sink', '')
+twin('C04-twin-files-sorted-set', 'C04',
+     'reference files de-duplicated through a sorted set',
+     [(P+'diff_exp/precompute_from_anndata.py',
+       "    gene_names = None\n    for pth in data_path_list:\n",
+       "    data_path_list = sorted(set(data_path_list))\n"
+       "    gene_names = None\n    for pth in data_path_list:\n")])
+mutant('C04-parents-in-key-order', 'C04',
+       'parents visited in the key order of the row table',
+       [(P+'type_assignment/election.py',
+         "            k_list = taxonomy_tree.nodes_at_level(parent_level)\n"
+         "            k_list.sort()\n",
+         "            k_list = list(previously_assigned[parent_level]."
+         "keys())\n")],
+       'R-TAINT/order-to-sink', '')
